@@ -6,9 +6,8 @@ RK  the analyser builds hierarchies of depth 1..3 (chromosome <- level-1 <- leve
     with the base-by-base composition of the per-level maps and with sequence preservation.
 RC  chunk API: liftover_location_to_seq_chunk_parent for every chunk window: lifted back = part inside the chunk,
     EmptyLocation outside; refusals (no such ancestor / non-contiguous / chunk without chromosome).
-R1  structural: per-block lift with (start, end, strand) in order, union_preserve_overlaps, re-parenting;
-    ancestor test before the recursive lift; LocationOverlapException handler returns EmptyLocation;
-    optimize_blocks=False on the chunk lift."""
+R1  refusals (interpreted): a Parent without child location / without parent / whose parent has no location is refused
+    with a documented exception before anything is lifted; a missing ancestor type raises NoSuchAncestorException."""
 import ast
 
 from ..astutil import bind_args, call_tail, calls_in, dotted, src, walk_shallow
@@ -25,8 +24,7 @@ EXPLANATION = (
     "locations on either strand) and every small child location is lifted by type and by sequence; the lifted "
     "location must enumerate exactly the composed base-by-base image, carry the composed strand, sit on the stripped "
     "ancestor, and extract the same sequence; chunk windows: lifted-back = part inside the chunk, outside = "
-    "EmptyLocation, missing ancestors refused. R1: structural shape of Parent.lift_child_location_to_parent, the "
-    "recursive lifts and the chunk handler. Not decided: deeper hierarchies and larger layouts than enumerated."
+    "EmptyLocation, missing ancestors refused. R1: refusal of incomplete hierarchies (interpreted). Not decided: deeper hierarchies and larger layouts than enumerated."
 )
 
 
@@ -285,21 +283,57 @@ def rc_chunks(ctx):
         ("gene.interval:AbstractInterval.liftover_location_to_seq_chunk_parent", "every chunk window: inside part / empty / round trip / sequence")])
 
 
-def r1_structural(ctx):
-    """only what the interpreted rules cannot reach: missing data is refused before anything is lifted"""
-    r = ctx.r
-    f = ctx.repo.fn("parent.parent:Parent.lift_child_location_to_parent")
-    calls = calls_in(f.node)
-    guards = [src(c) for c in calls if (dotted(c.func) or "").startswith("ObjectValidation.require_")]
-    lift = [c for c in calls if call_tail(c) == "relative_interval_to_parent_location"]
-    ok = len(guards) >= 2 and bool(lift) and all(g.lineno < lift[0].lineno for g in calls
-                                                 if (dotted(g.func) or "").startswith("ObjectValidation.require_"))
-    r.check(ok, "C04.R1", f.qual, "missing location / parent location refused before lifting",
-            f"child location and parent-of-parent location are not validated before the lift: {guards}", f)
-    fa = ctx.repo.fn("parent.parent:Parent.first_ancestor_of_type")
-    raises = [n for n in ast.walk(fa.node) if isinstance(n, ast.Raise)]
-    r.check(bool(raises) and all("NoSuchAncestorException" in src(x) for x in raises), "C04.R1", fa.qual,
-            "no-parent path raises NoSuchAncestorException", "first_ancestor_of_type raises something else than NoSuchAncestorException", fa)
+def _refusal_case(repo, it, S, spec):
+    """missing data is refused with a documented exception before anything is lifted (interpreted)"""
+    which, = spec
+    out = []
+    f = repo.fn("parent.parent:Parent.lift_child_location_to_parent")
+    fa = repo.fn("parent.parent:Parent.first_ancestor_of_type")
+    st = it.enum("SequenceType")
+    child = it.apply(ClassTok("SingleInterval"), [2, 6, S["PLUS"]], {}, None, 0)
+    placed = it.apply(ClassTok("SingleInterval"), [10, 30, S["MINUS"]], {}, None, 0)
+    internal = ("AttributeError", "TypeError", "IndexError", "KeyError", "RecursionError")
+    if which == "no child location":
+        p = mk_parent(it, id="lvl", parent=mk_parent(it, id="chr", location=placed))
+        k, v = run(it, f, [], {}, p)
+        if k != "raise" or v in internal:
+            out.append((which, f"Parent without a child location: lift_child_location_to_parent -> {k}:{v}; documented refusal (ValueError family)", f.qual))
+    elif which == "no parent":
+        p = mk_parent(it, id="lvl", location=child)
+        k, v = run(it, f, [], {}, p)
+        if k != "raise" or v in internal:
+            out.append((which, f"Parent without a parent: lift_child_location_to_parent -> {k}:{v}; documented refusal", f.qual))
+    elif which == "parent without location":
+        p = mk_parent(it, id="lvl", location=child, parent=mk_parent(it, id="chr"))
+        k, v = run(it, f, [], {}, p)
+        if k != "raise" or v in internal:
+            out.append((which, f"Parent whose parent has no location: lift_child_location_to_parent -> {k}:{v}; documented refusal", f.qual))
+    elif which == "complete":
+        p = mk_parent(it, id="lvl", location=child, parent=mk_parent(it, id="chr", location=placed))
+        k, v = run(it, f, [], {}, p)
+        want = [placed.fields["end"] - 1 - x for x in range(2, 6)]
+        got = enum_positions(blocks_of(v), strand_of(v).name) if k == "ok" else None
+        if got != want:
+            out.append((which, f"[2,6)+ on a level placed at [10,30)- lifts to {k}:{got}; base by base {want}", f.qual))
+    else:
+        # ancestor lookup without any such ancestor
+        p = mk_parent(it, id="lvl", sequence_type=st["SEQUENCE_CHUNK"], parent=mk_parent(it, id="up", sequence_type=st["SEQUENCE_CHUNK"]))
+        for inc in (True, False):
+            k, v = run(it, fa, [st["CHROMOSOME"]], {"include_self": inc}, p)
+            if not (k == "raise" and v == "NoSuchAncestorException"):
+                out.append((which, f"first_ancestor_of_type(CHROMOSOME, include_self={inc}) on a hierarchy without chromosome -> {k}:{v}; "
+                            f"documented NoSuchAncestorException", fa.qual))
+        k, v = run(it, fa, [st["SEQUENCE_CHUNK"]], {"include_self": False}, p)
+        if k != "ok" or v.fields.get("id") != "up":
+            out.append((which, f"first_ancestor_of_type(SEQUENCE_CHUNK, include_self=False) -> {k}; expected the parent 'up'", fa.qual))
+    return 1, out
+
+
+def r1_refusals(ctx):
+    specs = [(w,) for w in ("no child location", "no parent", "parent without location", "complete", "no such ancestor")]
+    results = pmap(_runner(ctx.repo, _refusal_case), specs, min_items=99)
+    _report(ctx, "C04.R1", results, [("parent.parent:Parent.lift_child_location_to_parent", "missing data refused before lifting"),
+                                     ("parent.parent:Parent.first_ancestor_of_type", "missing ancestor -> NoSuchAncestorException")])
 
 
 def r5_parent_identity(ctx):
@@ -312,5 +346,5 @@ RULES = [
     ("C04.RK", rk_hierarchies),
     ("C04.R5", r5_parent_identity),
     ("C04.RC", rc_chunks),
-    ("C04.R1", r1_structural),
+    ("C04.R1", r1_refusals),
 ]
